@@ -1,0 +1,40 @@
+// SPDX-FileCopyrightText: 2026 The Pion community <https://pion.ly>
+// SPDX-License-Identifier: MIT
+
+//go:build verif
+
+package nack
+
+// VerifC11Stream reports whether the generator holds a receive log for ssrc and
+// whether that log has seen no packet yet (lifecycle check C11).
+func (n *GeneratorInterceptor) VerifC11Stream(ssrc uint32) (exists, fresh bool) {
+	n.receiveLogsMu.Lock()
+	defer n.receiveLogsMu.Unlock()
+	rl, ok := n.receiveLogs[ssrc]
+	if !ok {
+		return false, true
+	}
+	rl.m.RLock()
+	defer rl.m.RUnlock()
+
+	return true, !rl.started
+}
+
+// VerifC11Stream reports whether the responder holds a send buffer for ssrc
+// and whether that buffer is empty (lifecycle check C11).
+func (n *ResponderInterceptor) VerifC11Stream(ssrc uint32, probeSeq uint16) (exists, fresh bool) {
+	n.streamsMu.Lock()
+	stream, ok := n.streams[ssrc]
+	n.streamsMu.Unlock()
+	if !ok {
+		return false, true
+	}
+	stream.rtpBufferMutex.Lock()
+	defer stream.rtpBufferMutex.Unlock()
+	p := stream.rtpBuffer.Get(probeSeq)
+	if p != nil {
+		p.Release()
+	}
+
+	return true, p == nil
+}
